@@ -22,6 +22,9 @@ FAMILY = [
     {"": {"a": 1}, "a": 2},
     {"a": {"": 1}},
     {"sp": {"a": 1, "b": {"c": True}}, "doc": {"a": 1.0}},
+    # lists, also as operator arguments of a filter (the index stores list values in hashable form, so a filter has to ask for them that way)
+    {"a": [1, [2, 3]], "b": {"c": [1, 2]}},
+    {"a": {"$in": [[1, 2], 5]}, "b": {"$eq": [1, 2]}, "sp": {"c": {"$ne": [3]}}},
 ]
 
 
@@ -59,7 +62,8 @@ def plain(v):
 
 class NestedToDotted(Contract):
     target = f"{UT}._nested_dicts_to_dotted_keys"
-    properties = ("C16", "C18")
+    properties = ("C06", "C16", "C18")
+    inline = (f"{UT}._to_hashable",)
 
     def cases(self):
         return [{"d": i} for i in range(len(FAMILY))]
@@ -79,6 +83,15 @@ class NestedToDotted(Contract):
         want = [(k, plain(v)) for k, v in ref_flatten(pre["d"])]
         ex.oblige(self.oname("ensures:every_leaf_is_listed_once_under_the_dotted_spelling_of_its_path_(empty_mappings_are_leaves)"),
                   z3.BoolVal(outcome[0] == "return" and got == want), note=repr((got, want))[:300])
+
+        def hashable(v):
+            try:
+                hash(v)
+                return True
+            except TypeError:
+                return False
+        bad = [(k, v) for k, v in interp.ctx.ghost["yielded"] if not hashable(v) and v != {}]
+        ex.oblige(self.oname("ensures:every_list_is_reported_in_hashable_form_whatever_the_key_it_sits_under_(operator_arguments_included)"), z3.BoolVal(not bad), note=repr(bad)[:200])
 
 
 class DottedToNested(Contract):
